@@ -237,11 +237,12 @@ def round4_shapes(quick):
         ("mono-growth-no-base-case", b"fn f<T>(x: T) -> int {\n    return f([x]) + f(fn() -> T { return x })\n}\nprint(1)"),
     ]
     # the call-site counter is program wide (u16); the VM has its own, lower, slot limit
-    for n in (4095, 4096, 4097, 65535, 65536, 66000) if quick else (255, 256, 4095, 4096, 4097, 32767, 32768, 65534, 65535, 65536, 65537, 66000, 131072):
+    for n in (4096, 4097, 65536, 66000) if quick else (255, 256, 4095, 4096, 4097, 32767, 32768, 65534, 65535, 65536, 65537, 66000, 131072):
         out.append((f"many-call-sites-{n}", ("fn g(x) { return x }\n" + "g(1)\n" * n).encode()))
+    if not quick:
+      out.append(("many-call-sites-in-lambdas-66000", ("fn g(x) { return x }\n" + "".join(f"let h{i} = fn() {{\n" + "g(1)\n" * 330 + "}\n" for i in range(200)) + "print(1)").encode()))
+      out.append(("many-call-sites-nested-args-66000", ("fn g(x) { return x }\n" + ("g(g(g(g(g(g(g(g(g(g(1))))))))))\n" * 6600)).encode()))
     out.append(("many-call-sites-in-functions-66000", ("fn g(x) { return x }\n" + "".join(f"fn h{i}() {{\n" + "g(1)\n" * 330 + "}\n" for i in range(200)) + "print(1)").encode()))
-    out.append(("many-call-sites-in-lambdas-66000", ("fn g(x) { return x }\n" + "".join(f"let h{i} = fn() {{\n" + "g(1)\n" * 330 + "}\n" for i in range(200)) + "print(1)").encode()))
-    out.append(("many-call-sites-nested-args-66000", ("fn g(x) { return x }\n" + ("g(g(g(g(g(g(g(g(g(g(1))))))))))\n" * 6600)).encode()))
     # flat programs whose inference links one type variable per statement (run with a 1 MiB stack by the CLI driver)
     for n in (1000, 3000):
         out.append((f"var-chain-module-arg-{n}", ("needs std.math\nfn g(x) { return x }\n" + "g(math.abs(1))\n" * n).encode()))
